@@ -104,6 +104,34 @@ def _replay_pose(data):
         d2 = c2.molecular_shape_descriptors(l_max=4, with_property=prop)
         if not close(d1, d2):
             bad.append("Crystal.molecular_shape_descriptors changes when the crystal's origin is moved along the polar axis")
+        # a larger, flat molecule (benzene, 12 atoms) in a P1 cell, described in the axis settings (a,b,c) and (b,c,a):
+        # the same structure rigidly re-oriented, so the surface must be found in both
+        from chmpy.crystal import UnitCell, SpaceGroup
+        from chmpy.core.element import Element
+        ang = np.arange(6) * np.pi / 3
+        ring = np.c_[np.cos(ang), np.sin(ang), np.zeros(6)]
+        cart = np.vstack([1.39 * ring, 2.48 * ring]) + np.array([3.7, 3.95, 2.6])
+        els = [Element[6]] * 6 + [Element[1]] * 6
+        res = []
+        for perm_ in ((0, 1, 2), (1, 2, 0)):
+            lengths = np.array([7.4, 7.9, 5.2])[list(perm_)]      # close-packed: every direction meets a neighbouring image
+            uc = UnitCell.from_lengths_and_angles(list(lengths), [np.pi / 2] * 3)
+            frac = (cart[:, list(perm_)]) / lengths
+            cb = Crystal(uc, SpaceGroup(1), AsymmetricUnit(els, frac))
+            try:
+                res.append(np.asarray(cb.molecular_shape_descriptors(l_max=4, with_property=prop), float))
+            except Exception as e:
+                bad.append("Crystal.molecular_shape_descriptors of a benzene P1 crystal in axis setting %s raises %s: %s" % (perm_, type(e).__name__, e))
+        # a 20-atom molecule (paracetamol, shipped test structure): the surface exists inside the documented bounds
+        try:
+            cp = Crystal.load("/repo/src/chmpy/tests/test_files/HXACAN01.pdb")
+            dp = np.asarray(cp.molecular_shape_descriptors(l_max=4, with_property=prop), float)
+            if not np.all(np.isfinite(dp)):
+                bad.append("Crystal.molecular_shape_descriptors of paracetamol is not finite")
+        except Exception as e:
+            bad.append("Crystal.molecular_shape_descriptors of paracetamol (HXACAN01) raises %s: %s" % (type(e).__name__, e))
+        # (the two descriptor vectors are not compared: at l_max = 4 rotation invariance only holds up to the discretisation
+        # error of the transform, which is outside the claim; what must not depend on the setting is that the surface is found)
     elif which == "error":
         # surface reachable in some directions only: Cl2 6 A long, search limited to 3.5 A -> must be reported as an error
         Zc, Pc = np.array([17, 17]), np.array([[-3.0, 0.0, 0.0], [3.0, 0.0, 0.0]])
